@@ -15,4 +15,7 @@ var props = map[string]propCfg{
 	"C17": {Pkg: "./props/unit", Test: "TestC17",
 		Quick:    tierCfg{Cases: 6000, Shards: 2, Timeout: 5 * min, ShrinkTime: 20 * sec},
 		Thorough: tierCfg{Cases: 480000, Shards: 16, Timeout: 40 * min, ShrinkTime: 60 * sec}},
+	"C16": {Pkg: "./props/unit", Test: "TestC16",
+		Quick:    tierCfg{Cases: 20000, Shards: 2, Timeout: 5 * min, ShrinkTime: 20 * sec},
+		Thorough: tierCfg{Cases: 2000000, Shards: 16, Timeout: 40 * min, ShrinkTime: 60 * sec}},
 }
